@@ -11,7 +11,10 @@ CONSTANTS MaxContent,     \* contents are the prefixes of <<1, 2, .., MaxContent
           MaxChunks,      \* chunks per script
           MaxChunk,       \* largest chunk
           ReadSizes,      \* Read buffer sizes (a set; 0 = zero-length read)
-          MaxHist         \* actions per history
+          MaxHist,        \* actions per history
+          MaxConds,       \* one-shot (non-sticky) conditions per script
+          OneShots,       \* their kinds, a subset of {"eof", "err"}
+          CloseErrs       \* subset of BOOLEAN: the stream's Close returns an error
 
 ContentBytes == [i \in 1..MaxContent |-> i]
 
@@ -20,13 +23,18 @@ vars == <<s, act, started, why>>
 
 Chunkings(L) == { c \in UNION { [1..m -> 0..MaxChunk] : m \in 0..MaxChunks } : SumSeq(c) = L }
 
-Scripts ==
-  { sc \in [content : { Take(ContentBytes, n) : n \in 0..Len(ContentBytes) },
-            chunks  : UNION { Chunkings(n) : n \in 0..Len(ContentBytes) },
-            term    : {"eof", "err"},
-            withData : BOOLEAN] : WellFormedScript(sc) }
+(* at most MaxConds one-shot conditions per script, of the kinds OneShots; Close fails or not *)
+CondSeqs(m) == { c \in [1..m -> {"none"} \cup OneShots] : Cardinality({ i \in 1..m : c[i] # "none" }) <= MaxConds }
 
-NilScript == [content |-> <<>>, chunks |-> <<>>, term |-> "eof", withData |-> FALSE]
+Scripts ==
+  { sc \in [content : { Take(ContentBytes, n) : n \in 0..MaxContent },
+            chunks  : UNION { Chunkings(n) : n \in 0..MaxContent },
+            conds   : UNION { CondSeqs(m) : m \in 0..MaxChunks },
+            term    : {"eof", "err"},
+            withData : BOOLEAN,
+            closeErr : CloseErrs] : WellFormedScript(sc) }
+
+NilScript == [content |-> <<>>, chunks |-> <<>>, conds |-> <<>>, term |-> "eof", withData |-> FALSE, closeErr |-> FALSE]
 
 Declared == {"pos", "zero", "absent"}
 
@@ -66,5 +74,6 @@ StateInv == started =>
 NeverTrue      == ~(act.a = "has" /\ s.ret.b /\ s.declared = "absent")
 NeverNested    == Len(s.layers) < 3
 NeverDataEOF   == ~(act.a = "read" /\ s.ret.n > 0 /\ s.ret.err # "none")
+NeverSwallow   == ~(act.a = "has" /\ started /\ Len(s.p.conds) < Len(CondList(s.sc)) /\ s.p.delivered = 0 /\ ~s.ret.b /\ s.sc.content # <<>>)
 NeverBypass    == ~(act.a = "read" /\ act.k >= BufSize /\ s.ret.n >= BufSize)
 =============================================================================
